@@ -19,7 +19,8 @@ func GetAlternativesSearchOrder(
 	if len(params.GetCurrentChoice()) > 0 {
 		allAlternatives := dm.AllAlternatives()
 		choice := model.FetchAlternative(&allAlternatives, params.GetCurrentChoice())
-		leftAlternatives := model.RemoveAlternative(dm.ConsideredAlternatives, choice)
+		consideredCopy := model.CopyAlternatives(&dm.ConsideredAlternatives)
+		leftAlternatives := model.RemoveAlternative(*consideredCopy, choice)
 		otherAlternatives := OrderAlternatives(params.IsRandomAlternativesOrdering(), &leftAlternatives, generator)
 		return choice, *otherAlternatives
 	} else {
